@@ -209,13 +209,13 @@ def make_filter_classes():
             super().__init__(config, *a, **k)
             w = world()
             if w.scn.get('lineage'):
-                self.emitter = w.make_emitter(self.config.id)
+                self.emitter = w.make_emitter(w.sim.me().name)
 
         def init(self, config):
             super().init(config)
             # a subclass doing more work after the communication has been set up (point 'init-late' of the C08 matrix)
             w = world()
-            self.vid = config.id
+            self.vid = w.sim.me().name          # the node, not config.id: two replicas may share one configured id
             spec = w.spec_by_id[self.vid]
             self.vbeh = spec.get('beh') or {}
             self.vinc = w.incarnation[self.vid]
@@ -232,7 +232,7 @@ def make_filter_classes():
 
         def setup(self, config):
             w = world()
-            self.vid = config.id
+            self.vid = w.sim.me().name          # the node, not config.id: two replicas may share one configured id
             spec = w.spec_by_id[self.vid]
             self.vbeh = spec.get('beh') or {}
             self.vrole = spec['role']
@@ -465,7 +465,7 @@ class World:
     # ------------------------------------------------------------------ nodes
     def _runner(self, spec, inc):
         VFilter = self.VFilter
-        cfg = {'outputs_metrics': False, 'outputs_filter': False, **spec['config'], 'id': spec['id']}
+        cfg = {'outputs_metrics': False, 'outputs_filter': False, **spec['config'], 'id': spec.get('config_id') or spec['id']}
         stop_evt = threading.Event()
         w = self
 
